@@ -71,6 +71,8 @@ type FCfg struct {
 	FTSec   int      `json:"ftsec,omitempty"`   // custom FailedUpdateTTL in seconds
 	Rand    float64  `json:"rand,omitempty"`    // fixed rand.Float64 answer + 0 (0 = 0.5 default); see randOf
 	Seq     []string `json:"seq,omitempty"`     // sequential scenario (C05b / C03 sequences)
+	Collide bool     `json:"collide,omitempty"` // the keys are distinct 64-byte keys with the same xxhash64
+	UpdSec  int      `json:"updsec,omitempty"`  // custom UpdateTTL in seconds
 	Tags    []string `json:"tags,omitempty"`
 }
 
@@ -152,6 +154,7 @@ type frontAPI interface {
 	Peek(key []byte) (v Tok, isNil bool, expireAt time.Time, found bool)
 	WalkKeys() []string
 	FailurePeek(key []byte) (error, bool)
+	ExpireAll()
 }
 
 type fh struct {
@@ -352,6 +355,10 @@ func (f *frontF) Get(ctx context.Context, key []byte, b func(context.Context) (T
 
 func (f *frontF) KeyLocks() int { return f.f.VerifKeyLocks() }
 
+func (f *frontF) ExpireAll() {
+	f.inner.(interface{ ExpireAll(context.Context) }).ExpireAll(context.Background())
+}
+
 func (f *frontF) SeedFailure(ctx context.Context, key []byte, err error) {
 	if f.f.Errors != nil {
 		_ = f.f.Errors.Write(ctx, key, err)
@@ -466,6 +473,8 @@ func (f *frontFO) Get(ctx context.Context, key []byte, b func(context.Context) (
 
 func (f *frontFO) KeyLocks() int { return f.f.VerifKeyLocks() }
 
+func (f *frontFO) ExpireAll() { f.inner.ExpireAll(context.Background()) }
+
 func (f *frontFO) SeedFailure(ctx context.Context, key []byte, err error) {
 	if f.f.Errors != nil {
 		_ = f.f.Errors.Write(ctx, key, err)
@@ -538,6 +547,19 @@ func newFH(cfg FCfg) *fh {
 		h.keys = append(h.keys, []byte(keyNames[i]))
 	}
 
+	if cfg.Collide {
+		ck := collidingKeys([]byte("collision-base-0123456789abcdef-collision-base-0123456789abcdef!")[:64], nkeys)
+		for i := 0; i < nkeys; i++ {
+			h.keys[i] = ck[i]
+			h.names[i] = string(ck[i])
+		}
+	}
+
+	upd := time.Duration(0)
+	if cfg.UpdSec != 0 {
+		upd = time.Duration(cfg.UpdSec) * time.Second
+	}
+
 	bcfg := cache.Config{Name: "c", TimeToLive: backendTTL, ExpirationJitter: -1}
 
 	var (
@@ -585,14 +607,14 @@ func newFH(cfg FCfg) *fh {
 
 		f := cache.NewFailover(cache.FailoverConfig{
 			Name: "c", Backend: &bwrap{h: h, inner: inner}, SyncUpdate: cfg.SU, SyncRead: cfg.SR, FailHard: cfg.FH,
-			MaxStaleness: ms, FailedUpdateTTL: ft, Stats: st, Logger: lg,
+			MaxStaleness: ms, FailedUpdateTTL: ft, UpdateTTL: upd, Stats: st, Logger: lg,
 		}.Use)
 		h.front = &frontF{f: f, inner: inner}
 	case 2:
 		inner := cache.NewShardedMapOf[Tok](bcfg.Use)
 		f := cache.NewFailoverOf[Tok](cache.FailoverConfigOf[Tok]{
 			Name: "c", Backend: &bwrapOf{h: h, inner: inner}, SyncUpdate: cfg.SU, SyncRead: cfg.SR, FailHard: cfg.FH,
-			MaxStaleness: ms, FailedUpdateTTL: ft, Stats: st, Logger: lg,
+			MaxStaleness: ms, FailedUpdateTTL: ft, UpdateTTL: upd, Stats: st, Logger: lg,
 		}.Use)
 		h.front = &frontFO{f: f, inner: inner}
 	}
